@@ -235,10 +235,10 @@ def project(spec, tag, v):
             return None
         f = spec.get('tagproj', {}).get(tag)
         return f(v) if f else v
-    if re.match(r'^f([0-9]+|A|B)\.', tag):
+    if re.match(r'^f([0-9]+|[AB][0-9]*)\.', tag):
         return None      # oracle runs on a fresh graph (C15/C20 monitors), not printed by the model
     proj = spec['proj']
-    base = re.sub(r'^(r[0-9]+\.|A\.|B\.)', '', tag)
+    base = re.sub(r'^(r[0-9]+\.|[AB][0-9]*\.)', '', tag)
     base = re.sub(r'^e[0-9]+$', 'e', base)
     f = proj.get(base) or proj.get('*')
     return f(v) if f else None
